@@ -85,7 +85,7 @@ SPEC = {
     "design_ref": "DESIGN.md §4 C13",
     "overlays": OVERLAYS,
     "redirects": REDIRECTS,
-    "coll_cap": 4,
+    "coll_cap": 3,
     "functions": [
         "consensus::blockstore::slot_block_data::BlockData::{new,try_reconstruct_block,mark_last_slice,add_own_slice}", "crypto::merkle::MerkleTree::{new,get_root,create_proof,check_proof,hash_leaf,hash_pair} (instantiation DoubleMerkleTree)",
         "consensus::blockstore::BlockInfo::from(&Block)", "types::slice::ReconstructedSlice::{from_parts,slice_root}", "wincode::config::deserialize_exact::<Vec<Transaction>> on 8-byte / 1-byte inputs",
